@@ -127,6 +127,12 @@ def cases(ctx):
         for variant in _variants_for(name):
             for stop in [None] + list(range(0, 8)):
                 yield {'op': name, 'variant': variant, 'stop': stop}
+            if not ctx.quick:
+                # larger inputs, and every internal sort forced onto the temp-file path (pickled copies must not be mistaken for,
+                # nor hide, mutations of the caller's rows)
+                for stop in (None, 3, 9):
+                    yield {'op': name, 'variant': variant, 'stop': stop, 'n': 7}
+                    yield {'op': name, 'variant': variant, 'stop': stop, 'n': 5, 'chunked': True}
     # every argument form of the field / row transforms of C12, on its generated (ragged, duplicate-name) tables
     from petlmon.checks import c12
 
@@ -214,7 +220,10 @@ def judge(case, ctx):
         e = C.by_name(name)
         fn, arity, kind = e.fn, e.arity, e.kind
         second_schema = e.second
-    plain = [_input(variant)]
+    plain = [_input(variant, case.get('n', 4))]
+    if case.get('chunked'):
+        from petl import config as pcfg
+        pcfg.sort_buffersize = 2
     if arity == 2:
         plain.append(C.table_join(3) if second_schema == 'join' else C.table_same(3))
     before = copy.deepcopy(plain)
